@@ -27,6 +27,7 @@ type Config struct {
 	DumpSMT      string // directory for SMT-LIB transcripts ("" = off)
 	StopAtFirst  bool   // stop a harness after the first violation per label
 	MaxViolPerLabel int
+	Thorough     bool
 }
 
 // Shared is the read-only state shared by all workers.
@@ -171,6 +172,7 @@ type exploration struct {
 	active int
 	res    *Result
 	stop   bool
+	initReported bool
 }
 
 func (i *interpreter) globalAddr(g *ssa.Global) *value {
@@ -428,11 +430,12 @@ func (ex *exploration) worker(w int) {
 		if !inited {
 			i.runInits()
 			inited = true
-			if w == 0 {
-				ex.mu.Lock()
+			ex.mu.Lock()
+			if !ex.initReported {
+				ex.initReported = true
 				ex.res.InitPoison = append(ex.res.InitPoison, i.initPoison...)
-				ex.mu.Unlock()
 			}
+			ex.mu.Unlock()
 		}
 		newItems := i.runPath(it)
 		ex.done(newItems)
@@ -452,6 +455,8 @@ func (i *interpreter) runInits() {
 	i.journalOn = false
 	i.inInit = true
 	i.onceInit = map[*value]bool{}
+	i.pathFuncs = map[string]int{}
+	i.pathModels = map[string]int{}
 	defer func() { i.inInit = false; i.syncTab = nil }()
 	i.maxSteps = 200_000_000
 	i.steps = 0
